@@ -7,6 +7,7 @@
 import ASV.Proofs.Parser.Main
 import ASV.Proofs.Parser.Grammar
 import ASV.Proofs.Parser.Tokeniser
+import ASV.Proofs.Parser.RulePP
 namespace ASV.C02
 open ASV ASV.Rules ASV.Parser ASV.Grammar ASV.Layout
 
@@ -131,6 +132,24 @@ theorem parse_pp (t : OrE) (ht : okTop t = true) (fuel : Nat) (k consumed : List
     the syntax tree: OR of ANDs of possibly negated atoms -/
 theorem sem_shape (e : Env) (g : Gene) (t : OrE) : sem e g (shapeTop t) = denOr e g t := by
   simp [shapeTop, sem, semAny_shapeOr]
+
+/-- the property's first sentence for a rule written with its mandatory sections: in any parser
+    state without aliases, followed by the next `RULE`/`DEFINE` or the end of the text, the rule is
+    parsed into the rule the grammar denotes — its name and category, the condition objects of the
+    syntax tree (`shapeTop t`, whose meaning is `denOr t` by `sem_shape`), and the two distances
+    read in kilobases. -/
+theorem rule_parsed_as_denoted (cfg : Cfg) (name cat : String) (cutoffKb nbhKb : Nat) (t : OrE)
+    (k consumed : List Tok) (rules : List Rule) (hcat : cfg.cats.contains cat = true) (ht : okTop t = true)
+    (hpos : positive (shapeTop t) = true)
+    (hk : headType k = none ∨ headType k = some .rule ∨ headType k = some .define) :
+    parseRule cfg (ofStream (ruleToks name cat cutoffKb nbhKb t ++ k) consumed rules) =
+      .ok ({ name := name, category := cat, cutoff := cutoffKb * 1000, neighbourhood := nbhKb * 1000,
+             conditions := shapeTop t },
+           ofStream k ((ruleToks name cat cutoffKb nbhKb t).reverse ++ consumed) rules) :=
+  parseRule_ruleToks cfg name cat cutoffKb nbhKb t k consumed rules hcat ht hpos hk
+
+/-- … and the main loop then scales them by the multipliers: `int(kb * 1000 * p/q)` -/
+theorem distances_scaled (kb : Nat) (mul : Nat × Nat) : scale (kb * 1000) mul = distance kb mul := rfl
 
 /-- both directions together: a token string is accepted as CONDITIONS with result `L` only if
     it is the flattening of `L` (`conditions_accepts_only_grammar`), and the flattening of every
